@@ -1516,3 +1516,92 @@ Proof.
     + apply has_mapped; assumption.
 Qed.
 End SeqDedup.
+
+(* ================================================================================================ *)
+(* 7. the sequence-level theorems for the rounding functions of the source                            *)
+(* ================================================================================================ *)
+Lemma round_spec_int_eq (dg : Z) (q : Q) (m : Z) : (q == inject_Z m)%Q -> dg <= 0 -> (round_spec dg q == inject_Z m)%Q.
+Proof.
+  intros E H. unfold round_spec.
+  assert (N : Qeq_bool q neg_zero = false).
+  { destruct (Qeq_bool q neg_zero) eqn:X; [|reflexivity]. apply Qeq_bool_iff in X. rewrite E in X.
+    apply Qeq_bool_iff in X. rewrite inject_Z_not_neg_zero in X. discriminate. }
+  rewrite N. assert (F : (0 <? dg) = false) by (apply Z.ltb_ge; exact H). rewrite F.
+  rewrite (round_dec_Proper (- dg) q (inject_Z m) E).
+  apply (round_dec_on_grid 0 (- dg) m); [lia|]. rewrite pow10_0. ring.
+Qed.
+
+Lemma Q2Qc_zq_int (dg : Z) (m : Z) : dg <= 0 -> qz (Q2Qc (round_spec dg (this (zq m)))) = m.
+Proof.
+  intro H. unfold qz. cbn [this Q2Qc zq].
+  rewrite (Qround.Qfloor_comp _ (inject_Z m)); [apply Qround.Qfloor_Z|].
+  rewrite Qred_correct. apply round_spec_int_eq; [apply Qred_correct|exact H].
+Qed.
+
+Theorem rnd_grad_keeps_shape_ids : KeepIds2 rnd_grad_key.
+Proof.
+  intros a m1 m2 rest. unfold rnd_grad_key, qc_row.
+  exists (Q2Qc (round_spec 6 (this a))), (Q2Qc (round_spec (-6) (this (zq m1)))), (Q2Qc (round_spec (-6) (this (zq m2)))),
+         (map Q2Qc (round_row [-6; -6; -6] (map this rest))).
+  split; [reflexivity|]. split; apply Q2Qc_zq_int; lia.
+Qed.
+
+Theorem rnd_rf_keeps_shape_ids : KeepIds3 rnd_rf_key.
+Proof.
+  intros a m1 m2 m3 rest. unfold rnd_rf_key, qc_row.
+  exists (Q2Qc (round_spec 6 (this a))), (Q2Qc (round_spec 0 (this (zq m1)))), (Q2Qc (round_spec 0 (this (zq m2)))),
+         (Q2Qc (round_spec 0 (this (zq m3)))), (map Q2Qc (round_row [6; 6; 6] (map this rest))).
+  split; [reflexivity|]. repeat split; apply Q2Qc_zq_int; lia.
+Qed.
+
+(* gradient rows of different kind have different lengths (trapezoid 5, arbitrary 6) and the
+   rounding keeps the length, so gradients of different kind are never merged *)
+Definition GradRowsShaped (c : core) : Prop :=
+  forall i k, lib_get (grad_l c) i = Some k ->
+    (lib_type (grad_l c) i = Some tag_t /\ length k = 5%nat) \/ (lib_type (grad_l c) i = Some tag_g /\ length k = 6%nat).
+Definition RfTagsUniform (c : core) : Prop :=
+  exists t, forall i k, lib_get (rf_l c) i = Some k -> lib_type (rf_l c) i = t.
+
+Lemma rnd_grad_key_length k : length (rnd_grad_key k) = Nat.min 6 (length k).
+Proof. unfold rnd_grad_key, qc_row. rewrite map_length, round_row_length, map_length. reflexivity. Qed.
+
+Theorem tags_agree_intro (r1 r3 : key -> key) c : StoreWf c -> RefsExist c -> GradRowsShaped c -> RfTagsUniform c ->
+  TagsAgree r1 rnd_grad_key r3 c.
+Proof.
+  intros W R GS [t RU]. split.
+  - destruct (gl1_spec r1 c W R) as (_ & _ & LT & Ng & G).
+    assert (Sh : forall i k, lib_get (d_gl1 r1 c) i = Some k ->
+              (lib_type (d_gl1 r1 c) i = Some tag_t /\ length k = 5%nat) \/ (lib_type (d_gl1 r1 c) i = Some tag_g /\ length k = 6%nat)).
+    { intros i k H. rewrite (lib_type_same _ _ i LT).
+      destruct (lib_get (grad_l c) i) as [d|] eqn:E; [|rewrite (Ng i E) in H; discriminate].
+      destruct (GS i d E) as [[T L]|[T L]];
+        destruct (G i d E) as [[T1 G1]|(T1 & a & s1 & s2 & rest & m1 & m2 & E1 & _ & G1 & _)];
+        try (exfalso; rewrite T in T1; vm_compute in T1; discriminate T1).
+      - left. split; [exact T|congruence].
+      - right. split; [exact T|]. rewrite G1 in H. inversion H. subst. cbn in *. exact L. }
+    intros i1 i2 k1 k2 H1 H2 E. apply (f_equal (@length Qc)) in E. rewrite !rnd_grad_key_length in E.
+    destruct (Sh _ _ H1) as [[T1 L1]|[T1 L1]], (Sh _ _ H2) as [[T2 L2]|[T2 L2]]; rewrite L1, L2 in E; cbn in E;
+      try discriminate E; congruence.
+  - destruct (rl1_spec r1 c W R) as (_ & _ & LT & Nr & _).
+    intros i1 i2 k1 k2 H1 H2 _. rewrite !(lib_type_same _ _ _ LT).
+    destruct (lib_get (rf_l c) i1) as [d1|] eqn:E1; [|rewrite (Nr i1 E1) in H1; discriminate].
+    destruct (lib_get (rf_l c) i2) as [d2|] eqn:E2; [|rewrite (Nr i2 E2) in H2; discriminate].
+    rewrite (RU _ _ E1), (RU _ _ E2). reflexivity.
+Qed.
+
+(* Sequence.remove_duplicates with the digit tuples of the source *)
+Theorem seq_dedup_decodes_rounded c :
+  StoreWf c -> RefsExist c -> TagsAgree rnd_shape_key rnd_grad_key rnd_rf_key c ->
+  exists c', seq_dedup c = Some c' /\ StoreWf c' /\ RefsExist c' /\
+    akeys (blocks c') = akeys (blocks c) /\ durs c' = durs c /\
+    forall i b, decode c i = Some b ->
+      decode c' i = Some (round_dblock rnd_shape_key rnd_grad_key rnd_rf_key rnd_adc_key c b).
+Proof.
+  intros W R T.
+  destruct (dedup_decodes_rounded rnd_shape_key rnd_grad_key rnd_rf_key rnd_adc_key c W R
+              rnd_grad_keeps_shape_ids rnd_rf_keeps_shape_ids T) as (c' & E & K & D & Dec).
+  destruct (dedup_refs_exist rnd_shape_key rnd_grad_key rnd_rf_key rnd_adc_key c W R
+              rnd_grad_keeps_shape_ids rnd_rf_keeps_shape_ids) as (c2 & E2 & W2 & R2).
+  unfold seq_dedup. rewrite E in E2. inversion E2. subst c2. exists c'.
+  split; [exact E|]. split; [exact W2|]. split; [exact R2|]. split; [exact K|]. split; [exact D|exact Dec].
+Qed.
